@@ -26,12 +26,12 @@ inductive Ev
   | obsRaw (what : Nat)             -- any observability call / obsState or writer assignment that is not one of the idioms
   | get (k : Nat)                   -- `c := getContextFromGlobalPool()` (k fresh per occurrence and per inlining)
   | release (k : Nat)               -- `releaseGlobalContext(c)`
-  | assign (k f : Nat)              -- `c.<field f> = …` (directly or through initForRequest…)
+  | assign (k f : Nat)              -- `c.<field f> = …` (directly or through initForRequest…); paramCount only ever `= 0`
   | reset (k : Nat)                 -- `c.reset()`
   | use (k what : Nat)              -- c mentioned (what = 0) or passed to a callee that is not inlined (what = code of the callee)
   | run (k what : Nat)              -- user-visible work on c: `c.Next()`, `handler(c)`, `c.NotFound()`, any other method call on c
   | wuse (what : Nat)               -- the tracked response writer is the receiver or an argument of a call
-  | loopBegin | loopEnd             -- brackets one representative iteration of a loop
+  | loopBegin (k : Nat) | loopEnd (k : Nat)  -- bracket one representative iteration of a loop that mentions context k
   deriving DecidableEq, Repr
 
 /-- statement skeleton: events, branching on abstract atoms (one fresh atom per `if` occurrence),
@@ -227,7 +227,10 @@ def mkSeq : Stmt → Stmt → Stmt
   | a, .skip => a
   | a, b => .seq a b
 
-def mkIte (c : Atom) (t e : Stmt) : Stmt := if t = e then t else .ite c t e
+def mkIte (c : Atom) : Stmt → Stmt → Stmt
+  | .skip, .skip => .skip
+  | .ret, .ret => .ret
+  | t, e => .ite c t e
 
 /-- a statement without `ret` and `defer` needs no scope -/
 def plain : Stmt → Bool
@@ -239,7 +242,17 @@ def plain : Stmt → Bool
   | .ite _ t e => plain t && plain e
   | .scope _ => true
 
-def mkScope (s : Stmt) : Stmt := if plain s then s else .scope s
+/-- no event and no deferred event anywhere inside -/
+def silent : Stmt → Bool
+  | .ev _ => false
+  | .skip => true
+  | .ret => true
+  | .defer _ => false
+  | .seq a b => silent a && silent b
+  | .ite _ t e => silent t && silent e
+  | .scope s => silent s
+
+def mkScope (s : Stmt) : Stmt := if silent s then .skip else if plain s then s else .scope s
 
 def prune : Stmt → Stmt
   | .seq a b => mkSeq (prune a) (prune b)
@@ -258,9 +271,7 @@ theorem exec_mkSeq (ρ : Atom → Bool) (a b : Stmt) : exec ρ (mkSeq a b) = exe
 
 theorem exec_mkIte (ρ : Atom → Bool) (c : Atom) (t e : Stmt) : exec ρ (mkIte c t e) = exec ρ (.ite c t e) := by
   unfold mkIte
-  by_cases h : t = e
-  · subst h; simp [exec]
-  · simp [h]
+  split <;> simp [exec]
 
 theorem plain_exec (ρ : Atom → Bool) (s : Stmt) (h : plain s = true) :
     (exec ρ s).returned = false ∧ (exec ρ s).defers = [] := by
@@ -281,14 +292,39 @@ theorem plain_exec (ρ : Atom → Bool) (s : Stmt) (h : plain s = true) :
     · simp [exec, hc, ihe h.2]
   | scope s _ => simp [exec]
 
+theorem silent_exec (ρ : Atom → Bool) (s : Stmt) (h : silent s = true) :
+    (exec ρ s).trace = [] ∧ (exec ρ s).defers = [] := by
+  induction s with
+  | ev e => simp [silent] at h
+  | skip => simp [exec]
+  | ret => simp [exec]
+  | defer e => simp [silent] at h
+  | seq a b iha ihb =>
+    simp only [silent, Bool.and_eq_true] at h
+    obtain ⟨ha1, ha2⟩ := iha h.1
+    obtain ⟨hb1, hb2⟩ := ihb h.2
+    simp only [exec]
+    split <;> simp [ha1, ha2, hb1, hb2]
+  | ite c t e iht ihe =>
+    simp only [silent, Bool.and_eq_true] at h
+    by_cases hc : ρ c = true
+    · simp [exec, hc, iht h.1]
+    · simp [exec, hc, ihe h.2]
+  | scope s ih =>
+    simp only [silent] at h
+    simp [exec, ih h]
+
 theorem exec_mkScope (ρ : Atom → Bool) (s : Stmt) : exec ρ (mkScope s) = exec ρ (.scope s) := by
   unfold mkScope
-  by_cases h : plain s = true
-  · obtain ⟨h1, h2⟩ := plain_exec ρ s h
-    simp only [h, if_true, exec, h2, List.append_nil]
-    cases hs : exec ρ s with
-    | mk t r d => simp_all
-  · simp [h]
+  by_cases hsil : silent s = true
+  · obtain ⟨h1, h2⟩ := silent_exec ρ s hsil
+    simp [hsil, exec, h1, h2]
+  · by_cases h : plain s = true
+    · obtain ⟨h1, h2⟩ := plain_exec ρ s h
+      simp only [hsil, h, if_true, exec, h2, List.append_nil]
+      cases hs : exec ρ s with
+      | mk t r d => simp_all
+    · simp [hsil, h]
 
 theorem exec_prune (ρ : Atom → Bool) (s : Stmt) : exec ρ (prune s) = exec ρ s := by
   induction s with
